@@ -93,8 +93,71 @@ let rec take n l = if n <= 0 then [] else match l with [] -> [] | x :: t -> x ::
 let rec drop n l = if n <= 0 then l else match l with [] -> [] | _ :: t -> drop (n-1) t
 let rec flist_of = function [] -> LNil | f :: t -> LCons (f, flist_of t)
 
-(* the expression parser is linked in later stages; None = not available *)
-let parse_expr : (byte list -> filter option) option ref = ref None
+(* ---------- libc atof (strtod on the longest valid prefix) and the double->float conversion, for the parser model *)
+let n_of_int64 (x : int64) : n =
+  let lo = Int64.to_int (Int64.logand x 0xFFFFFFFFL) and hi = Int64.to_int (Int64.shift_right_logical x 32) in
+  let rec mul2 k v = if k = 0 then v else mul2 (k-1) (Flt_model.N.add v v) in
+  Flt_model.N.add (mul2 32 (n_of_int hi)) (n_of_int lo)
+let int64_of_n (v : n) : int64 =
+  let rec of_pos = function XH -> 1L | XO p -> Int64.shift_left (of_pos p) 1 | XI p -> Int64.logor (Int64.shift_left (of_pos p) 1) 1L in
+  match v with N0 -> 0L | Npos p -> of_pos p
+let c_atof (chars : n list) : n =
+  let s = Stdlib.String.init (List.length chars) (fun i -> Char.chr ((int_of_n (List.nth chars i)) land 255)) in
+  let len = Stdlib.String.length s in
+  let i = ref 0 in
+  let isspace c = c = ' ' || (c >= '\t' && c <= '\r') in
+  while !i < len && isspace s.[!i] do incr i done;
+  let start = !i in
+  if !i < len && (s.[!i] = '+' || s.[!i] = '-') then incr i;
+  let lower_at k = if k < len then Char.lowercase_ascii s.[k] else '\000' in
+  let isdig c = c >= '0' && c <= '9' in
+  let ishex c = isdig c || (c >= 'a' && c <= 'f') || (c >= 'A' && c <= 'F') in
+  let has w = let n = Stdlib.String.length w in let ok = ref (!i + n <= len) in
+    if !ok then Stdlib.String.iteri (fun k c -> if lower_at (!i + k) <> c then ok := false) w; !ok in
+  let text =
+    if has "infinity" then (i := !i + 8; Some (Stdlib.String.sub s start (!i - start)))
+    else if has "inf" then (i := !i + 3; Some (Stdlib.String.sub s start (!i - start)))
+    else if has "nan" then (i := !i + 3; Some (Stdlib.String.sub s start (!i - start)))
+    else if has "0x" && (!i + 2 < len) && (ishex s.[!i + 2] || (s.[!i + 2] = '.' && !i + 3 < len && ishex s.[!i + 3])) then begin
+      i := !i + 2;
+      while !i < len && ishex s.[!i] do incr i done;
+      if !i < len && s.[!i] = '.' then (incr i; while !i < len && ishex s.[!i] do incr i done);
+      if !i < len && (s.[!i] = 'p' || s.[!i] = 'P') then begin
+        let j = ref (!i + 1) in
+        if !j < len && (s.[!j] = '+' || s.[!j] = '-') then incr j;
+        if !j < len && isdig s.[!j] then (while !j < len && isdig s.[!j] do incr j done; i := !j)
+      end;
+      Some (Stdlib.String.sub s start (!i - start))
+    end else begin
+      let d0 = !i in
+      while !i < len && isdig s.[!i] do incr i done;
+      let nd = !i - d0 in
+      let nf = ref 0 in
+      if !i < len && s.[!i] = '.' then begin
+        let j = ref (!i + 1) in
+        while !j < len && isdig s.[!j] do incr j done;
+        nf := !j - !i - 1;
+        if nd > 0 || !nf > 0 then i := !j
+      end;
+      if nd = 0 && !nf = 0 then None
+      else begin
+        if !i < len && (s.[!i] = 'e' || s.[!i] = 'E') then begin
+          let j = ref (!i + 1) in
+          if !j < len && (s.[!j] = '+' || s.[!j] = '-') then incr j;
+          if !j < len && isdig s.[!j] then (while !j < len && isdig s.[!j] do incr j done; i := !j)
+        end;
+        Some (Stdlib.String.sub s start (!i - start))
+      end
+    end in
+  let v = match text with
+    | None -> 0.0
+    | Some t -> (match float_of_string_opt t with Some f -> f | None -> 0.0) in
+  n_of_int64 (Int64.bits_of_float v)
+let c_d2f (x : n) : n =
+  let f = Int64.float_of_bits (int64_of_n x) in
+  n_of_int ((Int32.to_int (Int32.bits_of_float f)) land 0xFFFFFFFF)
+
+let parse_expr : (byte list -> filter option) option ref = ref (Some (fun e -> Flt_model.parse_expr c_atof c_d2f e))
 
 let () =
   let lines = Ocommon.read_lines () in
